@@ -100,6 +100,12 @@ func (e *Engine) spawnAtomic(st *State, f FuncV, site string) {
 }
 
 func (e *Engine) spawnFunc(st *State, f FuncV, site string) {
+	if st.Th == nil && e.GoPolicy == "inline" {
+		// the goroutine runs to completion at once: one legal schedule (the only one examined)
+		e.Notes = append(e.Notes, "goroutine started at "+site+" runs to completion immediately (single schedule)")
+		e.doCall(nil, st, &ssa.CallCommon{}, f, nil, nil, site)
+		return
+	}
 	if st.Th == nil && e.GoPolicy == "skip" {
 		e.Notes = append(e.Notes, "goroutine started at "+site+" is not executed (outside this check)")
 		return
@@ -108,6 +114,11 @@ func (e *Engine) spawnFunc(st *State, f FuncV, site string) {
 }
 
 func (e *Engine) spawnGo(st *State, cc *ssa.CallCommon, fnv, recv Value, args []Value, site string) {
+	if st.Th == nil && e.GoPolicy == "inline" {
+		e.Notes = append(e.Notes, "goroutine started at "+site+" runs to completion immediately (single schedule)")
+		e.doCall(nil, st, cc, fnv, recv, args, site)
+		return
+	}
 	if st.Th == nil && e.GoPolicy == "skip" {
 		e.Notes = append(e.Notes, "goroutine started at "+site+" is not executed (outside this check)")
 		return
